@@ -206,8 +206,30 @@ def run(chk, binary):
             mk, n = None, 1
             k = op + ("a" if obj[1] else "i") + ("W" if obj[0] else "w") + ("Z<esc>" if op == "c" else "")
             cls = f"op {op} + {'a' if obj[1] else 'i'}{'W' if obj[0] else 'w'}"
+        cs = None
+        if obj is None and rng_o.random() < 0.12:
+            # a case operator over a motion (or doubled), or one of the one-key commands ~ and r
+            if rng_o.random() < 0.65:
+                cop = rng_o.choice(["g~", "gU", "gu"])
+                cmk = rng_o.choice(sorted(MODEL_MOTIONS) + [None, None])
+                n = 1 if cmk in ("0", "^", "$") else rng_o.choice([1, 1, 2, 3])
+                k = (str(n) if n > 1 else "") + cop + (cmk if cmk else (cop if rng_o.random() < 0.5 else cop[1]))
+                cs = ("case", cop, cmk, n)
+                cls = f"op {cop} + {'N' if n > 1 else ''}{cmk if cmk else 'doubled'}"
+            elif rng_o.random() < 0.3:
+                n = rng_o.choice([1, 1, 2, 3, 4])
+                k = (str(n) if n > 1 else "") + "J"
+                cs = ("join", n)
+                cls = f"op {'N' if n > 1 else ''}J"
+            else:
+                n = rng_o.choice([1, 1, 2, 3, 4])
+                rch = rng_o.choice([None, "x", "b"])
+                k = (str(n) if n > 1 else "") + ("r" + rch if rch else "~")
+                cs = ("tilde", rch, n)
+                cls = f"op {'N' if n > 1 else ''}{'r' if rch else '~'}"
+            mk, op = None, "y"
         vm = None
-        if obj is None and rng_o.random() < 0.15:
+        if obj is None and cs is None and rng_o.random() < 0.15:
             # a line motion: j k G gg, with or without a count
             vm = (rng_o.choice(["j", "k", "G", "gg"]), rng_o.choice([None, None, 1, 2, 3, 4]))
             mk, n = None, 1
@@ -215,12 +237,12 @@ def run(chk, binary):
             cls = f"op {op} + {'N' if vm[1] else ''}{vm[0]}"
         put = None
         keys_ = [k]
-        if vm is None and op != "c" and rng_o.random() < 0.25:
+        if cs is None and op != "c" and rng_o.random() < 0.25:
             # followed by a put of what the operator left in the register
             put = (rng_o.random() < 0.5, rng_o.choice([1, 1, 2, 3]))
             keys_.append((str(put[1]) if put[1] > 1 else "") + ("p" if put[0] else "P"))
             cls += " then " + ("N" if put[1] > 1 else "") + ("p" if put[0] else "P")
-        cases.append({"text": flat + "\n", "cursor": rng_o.choice(cursors(flat)), "keys": keys_, "cls": cls, "family": "OP", "classes": [cls], "opcase": (op, mk, n, flat), "put": put, "obj": obj, "vm": vm})
+        cases.append({"text": flat + "\n", "cursor": rng_o.choice(cursors(flat)), "keys": keys_, "cls": cls, "family": "OP", "classes": [cls], "opcase": (op, mk, n, flat), "put": put, "obj": obj, "vm": vm, "cs": cs})
     vim = VR.run_vim(cases)
     ans = server_map(binary, [{"op": "keys", "text": c["text"], "cursor": c["cursor"], "keys": ["".join(c["keys"])], "last_only": True} for c in cases])
     # the operator model against Vim: no tolerance
@@ -230,9 +252,11 @@ def run(chk, binary):
         return (opn[cases[i]["opcase"][0]], "Z" if cases[i]["opcase"][0] == "c" else "", txt(cases[i]["opcase"][3]),
                 (C("Some", MODEL_MOTIONS[cases[i]["opcase"][1]]) if cases[i]["opcase"][1] else None), Nat(cases[i]["opcase"][2]), Nat(cases[i]["cursor"]))
     objs = [i for i in opidx if cases[i].get("obj") and not cases[i].get("put")]
-    vms = [i for i in opidx if cases[i].get("vm")]
-    plain = [i for i in opidx if not cases[i].get("put") and not cases[i].get("obj") and not cases[i].get("vm")]
-    withput = [i for i in opidx if cases[i].get("put") and not cases[i].get("obj")]
+    vms = [i for i in opidx if cases[i].get("vm") and not cases[i].get("put")]
+    vmputs = [i for i in opidx if cases[i].get("vm") and cases[i].get("put")]
+    css = [i for i in opidx if cases[i].get("cs")]
+    plain = [i for i in opidx if not cases[i].get("put") and not cases[i].get("obj") and not cases[i].get("vm") and not cases[i].get("cs")]
+    withput = [i for i in opidx if cases[i].get("put") and not cases[i].get("obj") and not cases[i].get("vm")]
     skipped_objput = [i for i in opidx if cases[i].get("obj") and cases[i].get("put")]        # compared with Vim only
     res_obj = run_coq_eval("c02_obj", ["Base.Prelude", "Model.Motions", "Model.Ops", "Model.Obs"], "obj_obs",
                            [(opn[cases[i]["opcase"][0]], "Z" if cases[i]["opcase"][0] == "c" else "", txt(cases[i]["opcase"][3]), cases[i]["obj"][0], cases[i]["obj"][1], Nat(cases[i]["cursor"])) for i in objs], shard=800)
@@ -243,8 +267,26 @@ def run(chk, binary):
     res_vm = run_coq_eval("c02_opv", ["Base.Prelude", "Model.Motions", "Model.Ops", "Model.Obs"], "opv_obs",
                           [(opn[cases[i]["opcase"][0]], "Z" if cases[i]["opcase"][0] == "c" else "", txt(cases[i]["opcase"][3]), vmn[cases[i]["vm"][0]],
                             (C("Some", Nat(cases[i]["vm"][1])) if cases[i]["vm"][1] else None), Nat(cases[i]["cursor"])) for i in vms], shard=800)
+    cidx = [i for i in css if cases[i]["cs"][0] == "case"]
+    tidx = [i for i in css if cases[i]["cs"][0] == "tilde"]
+    copn = {"g~": 0, "gU": 1, "gu": 2}
+    res_case = run_coq_eval("c02_case", ["Base.Prelude", "Model.Motions", "Model.Ops", "Model.Obs"], "case_obs",
+                            [(copn[cases[i]["cs"][1]], txt(cases[i]["opcase"][3]), (C("Some", MODEL_MOTIONS[cases[i]["cs"][2]]) if cases[i]["cs"][2] else None),
+                              Nat(cases[i]["cs"][3]), Nat(cases[i]["cursor"])) for i in cidx], shard=800)
+    res_tilde = run_coq_eval("c02_tilde", ["Base.Prelude", "Model.Motions", "Model.Ops", "Model.Obs"], "tilde_obs",
+                             [((C("Some", ord(cases[i]["cs"][1])) if cases[i]["cs"][1] else None), txt(cases[i]["opcase"][3]), Nat(cases[i]["cs"][2]), Nat(cases[i]["cursor"])) for i in tidx], shard=800)
     by_idx = dict(zip(plain, res_plain))
+    by_idx.update(zip(cidx, [(a_, b_, None) for a_, b_ in res_case]))
+    by_idx.update(zip(tidx, [(a_, b_, None) for a_, b_ in res_tilde]))
     by_idx.update(zip(vms, res_vm))
+    res_vmput = run_coq_eval("c02_opvput", ["Base.Prelude", "Model.Motions", "Model.Ops", "Model.Obs"], "opv_put_obs",
+                             [((opn[cases[i]["opcase"][0]], "", txt(cases[i]["opcase"][3]), vmn[cases[i]["vm"][0]],
+                                (C("Some", Nat(cases[i]["vm"][1])) if cases[i]["vm"][1] else None), Nat(cases[i]["cursor"])), cases[i]["put"][0], Nat(cases[i]["put"][1])) for i in vmputs], shard=800)
+    by_idx.update(zip(vmputs, res_vmput))
+    jidx = [i for i in css if cases[i]["cs"][0] == "join"]
+    res_join = run_coq_eval("c02_join", ["Base.Prelude", "Model.Motions", "Model.Ops", "Model.Obs"], "join_obs",
+                            [(txt(cases[i]["opcase"][3]), Nat(cases[i]["cs"][1]), Nat(cases[i]["cursor"])) for i in jidx], shard=800)
+    by_idx.update(zip(jidx, [(a_, b_, None) for a_, b_ in res_join]))
     by_idx.update(zip(withput, res_put))
     by_idx.update(zip(objs, res_obj))
     opidx = [i for i in opidx if i in by_idx]
